@@ -62,6 +62,11 @@ def lead_of(st, v):
     return _sl(st, v)[2]
 
 
+def prefix_def(fk, k, step):
+    """fold(k) == "" if k <= 0 else step  -- as two implications (z3's sequence solver digests them better than an ite)."""
+    return [z3.Implies(k <= 0, fk == lit("")), z3.Implies(k > 0, fk == step)]
+
+
 def cc(*ts):
     return T._concat([y for t in ts for y in T._flat(t if not isinstance(t, str) else lit(t))])
 
@@ -95,7 +100,7 @@ def _odf_text_def(e, *cfg):
 
 
 def _odf_kids_def(e, k, *cfg):
-    return [ODF_KIDS(e, k, *cfg) == z3.If(k <= 0, lit(""), cc(ODF_KIDS(e, z3.simplify(k - 1), *cfg), ODF_ITEM(CH(e, z3.simplify(k - 1)), *cfg)))]
+    return prefix_def(ODF_KIDS(e, k, *cfg), k, cc(ODF_KIDS(e, z3.simplify(k - 1), *cfg), ODF_ITEM(CH(e, z3.simplify(k - 1)), *cfg)))
 
 
 def _odf_item_def(c, sp, tab, lb, attr, skip):
@@ -226,7 +231,7 @@ class Dx:
 
     def _kids(self, e, k, inc):
         k1 = z3.simplify(k - 1)
-        return [self.KIDS(e, k, inc) == z3.If(k <= 0, lit(""), cc(self.KIDS(e, k1, inc), self.F(CH(e, k1), inc)))]
+        return prefix_def(self.KIDS(e, k, inc), k, cc(self.KIDS(e, k1, inc), self.F(CH(e, k1), inc)))
 
     def run_item(self, c, inc):
         return z3.If(TAG(c) == W_T, self.h(TEXT(c)), z3.If(is_brk(TAG(c)), self.ws, self.F(c, inc)))
@@ -234,7 +239,7 @@ class Dx:
     def _run(self, e, k, inc):
         k1 = z3.simplify(k - 1)
         c = CH(e, k1)
-        return [self.RUN(e, k, inc) == z3.If(k <= 0, lit(""), cc(self.RUN(e, k1, inc), self.run_item(c, inc))),
+        return prefix_def(self.RUN(e, k, inc), k, cc(self.RUN(e, k1, inc), self.run_item(c, inc))) + [
                 z3.Implies(TEXT_NONE(c), TEXT(c) == lit("")),
                 z3.Implies(is_brk(TAG(c)), NCH(c) == 0)           # OOXML-SCHEMA: w:tab / w:br / w:cr are empty elements
                 ] + self._f(c, inc) + self._kids(c, NCH(c), inc)  # (definition instances at the child, so that dx(empty element) == "")
@@ -282,7 +287,7 @@ def _blocks_def(F, par, tbl):
                z3.If(TAG(c) == W_TBL, tbl(c, inc),
                z3.If(TAG(c) == W_SDT, z3.If(FIND_NONE(c, W_SDTCONTENT), lit(""), F(sc, NCH(sc), inc)),
                z3.If(TAG(c) == W_CUSTOMXML, F(c, NCH(c), inc), lit("")))))
-        return [F(e, k, inc) == z3.If(k <= 0, lit(""), cc(F(e, k1, inc), item))]
+        return prefix_def(F(e, k, inc), k, cc(F(e, k1, inc), item))
     return d
 
 
@@ -330,6 +335,8 @@ def docx_contracts():
                1: LoopSpec(inv=run_inv, label="run-children"),
                2: LoopSpec(inv=kids_inv("elem"), label="children")},
     )
+    # guards of ELEM_CASES are exhaustive: at call sites the postcondition is assumed unsplit
+    process.compact_ensures = [(f"{nm}(parts)==old+dx_{nm}(elem)", post(nm, D, h, lambda t: z3.BoolVal(True))) for nm, D, h in DX_IMAGES]
     omml = FnContract(target=f"{OMML_PY}::omml_to_latex", params=[("elem", p_elem())], assumed=True,
                       returns=lambda c: VStr(OMML(c.args["elem"].t)), note="uninterpreted: C19 decides what the LaTeX is")
 
@@ -428,7 +435,7 @@ def caption_text(im):
 def _fold(F, item):
     def d(k):
         k1 = z3.simplify(k - 1)
-        return [F(k) == z3.If(k <= 0, lit(""), cc(F(z3.simplify(k - 1)), item(k1)))]
+        return prefix_def(F(k), k, cc(F(z3.simplify(k - 1)), item(k1)))
     return d
 
 
@@ -564,8 +571,8 @@ def tag_in(t, names):
 
 
 define(HT, lambda n: [HT(n) == cc(H_TEXT(n), HT_KIDS(n, H_NCH(n))), H_NCH(n) >= 0])
-define(HT_KIDS, lambda n, k: [HT_KIDS(n, k) == z3.If(k <= 0, lit(""), cc(HT_KIDS(n, z3.simplify(k - 1)), HT(H_CH(n, z3.simplify(k - 1))),
-                                                                          H_TAIL(H_CH(n, z3.simplify(k - 1)))))])
+define(HT_KIDS, lambda n, k: prefix_def(HT_KIDS(n, k), k, cc(HT_KIDS(n, z3.simplify(k - 1)), HT(H_CH(n, z3.simplify(k - 1))),
+                                                             H_TAIL(H_CH(n, z3.simplify(k - 1))))))
 
 
 def _pn_def(n):
@@ -582,7 +589,7 @@ def _pn_def(n):
 def _pn_kids_def(n, k):
     k1 = z3.simplify(k - 1)
     c = H_CH(n, k1)
-    return [PN_KIDS(n, k) == z3.If(k <= 0, lit(""), cc(PN_KIDS(n, k1), PN(c), NW(H_TAIL(c))))]
+    return prefix_def(PN_KIDS(n, k), k, cc(PN_KIDS(n, k1), PN(c), NW(H_TAIL(c))))
 
 
 # class invariant of the tree the builder makes (C17: no node of a removed tag is ever added), instantiated at every child term
@@ -656,9 +663,9 @@ def grid_row(hdr, k):
     return z3.If(RLEN(hdr) > 0, z3.If(k == 0, hdr, ROWS_AT(z3.simplify(k - 1))), ROWS_AT(k))
 
 
-define(ROW_NW, lambda r, k: [ROW_NW(r, k) == z3.If(k <= 0, lit(""), cc(ROW_NW(r, z3.simplify(k - 1)), NW(RCELL(r, z3.simplify(k - 1))))), RLEN(r) >= 0])
-define(GRID_NW, lambda h, k: [GRID_NW(h, k) == z3.If(k <= 0, lit(""), cc(GRID_NW(h, z3.simplify(k - 1)),
-                                                                        ROW_NW(grid_row(h, z3.simplify(k - 1)), RLEN(grid_row(h, z3.simplify(k - 1))))))])
+define(ROW_NW, lambda r, k: prefix_def(ROW_NW(r, k), k, cc(ROW_NW(r, z3.simplify(k - 1)), NW(RCELL(r, z3.simplify(k - 1))))) + [RLEN(r) >= 0])
+define(GRID_NW, lambda h, k: prefix_def(GRID_NW(h, k), k, cc(GRID_NW(h, z3.simplify(k - 1)),
+                                                             ROW_NW(grid_row(h, z3.simplify(k - 1)), RLEN(grid_row(h, z3.simplify(k - 1)))))))
 
 
 def xls_contracts():
@@ -778,6 +785,10 @@ def lemmas():
                                                  N(MC + "Fallback", N(W + "txbxContent", TR.wpara("B1"), TR.wpara("B2"))))), wr(wt("T"))),
         "vml-text-box-is-visible": wp(wr(N(W + "pict", N(W + "txbxContent", TR.wpara("BOX"))))),
     }
+    # the case lists that split clauses into separately identified obligations are exhaustive (otherwise a case would go unchecked)
+    tg = z3.String("t!cases")
+    for nm, cases in (("element", ELEM_CASES), ("run-child", RUN_CHILD_CASES), ("body-child", BODY_CHILD_CASES)):
+        out.append((f"C02/spec::cases/lemma#exhaustive.{nm}", [], z3.Or([g(tg) for _n, g in cases])))
     inc = z3.BoolVal(True)
     for name, tree in docx.items():
         root, facts, nodes = ground_tree(tree, find_tags=(MC + "Choice", M_ + "oMath"))
